@@ -43,6 +43,7 @@ def run(chk, F):
     chk.guard("who-may-write", "Context", lambda: who_may_write(chk, F, G))
     chk.guard("ans-store-guards", "updaters", lambda: store_guards(chk, F))
     chk.guard("number-reply-sites", "QueryReply::Number", lambda: number_sites(chk, F))
+    chk.guard("commands-do-not-fall-through", "parse_query", lambda: command_words(chk, F))
     chk.guard("ans-lookup", "Context::lookup", lambda: ans_lookup(chk, F))
     import shared_rules
     chk.guard("temporaries-cleared", "load_defs", lambda: shared_rules.temporaries_cleared(chk, F))
@@ -322,3 +323,50 @@ def ans_lookup(chk, F):
 
 def facts_norm(p):
     return cg.norm(p)
+
+
+def command_words(chk, F):
+    """`factorize`, `units`, `search` are commands: they leave `ans` alone.  The arm of parse_query that consumes such a word
+    must return on every path; if it can fall through, the rest of the line is evaluated as a plain expression with the
+    command word dropped - and its numeric result is stored as `ans` (`search 'foot'` answered `1 foot` and set ans)."""
+    fn = F.find(CORE, "parsing::text_query::parse_query")
+    h = F.hir_of(fn)
+    import hirutil as H
+
+    def diverges(e):
+        k = e.get("k")
+        if k == "Ret":
+            return True
+        if k == "Block":
+            for s_ in e["stmts"]:
+                inner = s_.get("e") if s_["sk"] in ("expr", "semi") else s_.get("init")
+                if inner is not None and diverges(inner):
+                    return True
+            return bool(e.get("expr")) and diverges(e["expr"])
+        if k == "If":
+            return bool(e.get("else")) and diverges(e["then"]) and diverges(e["else"])
+        if k == "Match":
+            return all(diverges(a["body"]) for a in e["arms"])
+        if k == "DropTemps":
+            return diverges(e["e"])
+        return False
+    ms = [m for m in hir_walk(h["body"]) if m.get("k") == "Match" and m.get("src") == "Normal"]
+    n = 0
+    for a in ms[0]["arms"]:
+        g = a.get("guard")
+        if not g:
+            continue
+        word = None
+        for x in hir_walk(g):
+            if x.get("k") == "Lit" and x["lit"].get("lit") == "str":
+                word = x["lit"].get("v")
+        if word not in ("factorize", "units", "search"):
+            continue
+        n += 1
+        chk.decide(diverges(a["body"]), "commands-do-not-fall-through", "rink_core::parsing::text_query::parse_query", "arm:" + word,
+                   "%s:%d" % (fn.file, a["line"]),
+                   "the `%s` arm returns a command query (or an error) on every path" % word,
+                   "the `%s` arm can fall through after consuming the command word: the rest of the line is evaluated as a plain expression and "
+                   "its result is stored as `ans`" % word)
+    if n < 3:
+        chk.anchor_lost("commands-do-not-fall-through", "parse_query", "expected the factorize/units/search arms, found %d" % n)
